@@ -21,6 +21,7 @@ import (
 	"github.com/ipfs/go-graphsync"
 	"github.com/ipfs/go-graphsync/ipldutil"
 	gsmsg "github.com/ipfs/go-graphsync/message"
+	"github.com/ipfs/go-graphsync/notifications"
 	"github.com/ipfs/go-graphsync/peerstate"
 	"github.com/ipfs/go-graphsync/responsemanager/hooks"
 	"github.com/ipfs/go-graphsync/responsemanager/queryexecutor"
@@ -61,6 +62,15 @@ func (rm *ResponseManager) processRequests(p peer.ID, requests []gsmsg.GraphSync
 	defer messageSpan.End()
 
 	for _, request := range requests {
+		// request IDs are chosen by the requestor: a message from one peer must never reach a
+		// response that is being served to another peer, whatever ID it carries
+		if rm.ownedByOther(request.ID(), p) {
+			log.Warnf("peer %s sent a %s request for ID %s, which is in use by a response for another peer", p, request.Type(), request.ID().String())
+			if request.Type() == graphsync.RequestTypeNew {
+				rm.refuseRequest(p, request)
+			}
+			continue
+		}
 		switch request.Type() {
 		case graphsync.RequestTypeCancel:
 			_ = rm.abortRequest(ctx, request.ID(), ipldutil.ContextCancelError{})
@@ -72,6 +82,29 @@ func (rm *ResponseManager) processRequests(p peer.ID, requests []gsmsg.GraphSync
 			log.Errorf("unrecognized request type: %s", request.Type())
 		}
 	}
+}
+
+// ownedByOther reports whether the request ID names an in progress response that is being
+// served to a peer other than p
+func (rm *ResponseManager) ownedByOther(requestID graphsync.RequestID, p peer.ID) bool {
+	response, ok := rm.inProgressResponses[requestID]
+	return ok && response.peer != p
+}
+
+// refusedSubscriber receives the send notifications for a refusal, which nobody tracks
+type refusedSubscriber struct{}
+
+func (refusedSubscriber) OnNext(notifications.Topic, notifications.Event) {}
+func (refusedSubscriber) OnClose(notifications.Topic)                     {}
+
+// refuseRequest rejects a new request whose ID is in use by a response for another peer,
+// without touching that response or the table
+func (rm *ResponseManager) refuseRequest(p peer.ID, request gsmsg.GraphSyncRequest) {
+	responseStream := rm.responseAssembler.NewStream(rm.ctx, p, request.ID(), refusedSubscriber{})
+	_ = responseStream.Transaction(func(rb responseassembler.ResponseBuilder) error {
+		rb.FinishWithError(graphsync.RequestRejected)
+		return nil
+	})
 }
 
 // processUpdate handles a graphsync update message
